@@ -297,6 +297,10 @@ func (F LevelDbStoreFactory) CreateStore(identifier string, temporary bool) (CRL
 	}
 	db, err := openDbWithRetries(levelDBPath, F.Logger)
 	if err != nil {
+		if temporary {
+			//do not leave the just created temporary directory behind
+			_ = os.RemoveAll(levelDBPath)
+		}
 		return nil, fmt.Errorf("could not create leveldb store: %v", err)
 	}
 	return &LevelDbStore{
